@@ -16,6 +16,31 @@ solution of the normal equations whenever the design matrix has full rank), and 
 a full-rank design the model is also run on exact rationals with the driver's own normal-equation
 solver (`Q ... N`).
 
+The call is also CONCRETE in the model (lean/Model/Lstsq.lean: `lstsqNormal` / `lstsqMinNorm` / `lstsqLsq`,
+theorems at the end of Proofs/C12.lean), and the closed function `findPeakConcrete` is compared with the
+real `_find_peak` without handing over any coefficient:
+  op `findpeakm Q`  exact rationals (every double is a rational): coordinates, status, fit box.  The real
+                    call goes through numpy's SVD-based lstsq, so a SUCCESS coordinate is compared with
+                    the tolerance  2 L tolc  where  tolc = 16 eps (k |c| + k |b|/smax + k^2 |r|/smax)  is
+                    Wedin's perturbation bound for a backward-stable least-squares solver (k = smax/smin
+                    of the design matrix over its non-zero singular values, r the residual) and L the
+                    sensitivity of the vertex formula to the coefficients (sum of the absolute partial
+                    derivatives, ~ 1/det); a different status is a near-tie ONLY when, for the model's
+                    exact coefficients, a deciding quantity of the fit stage is within the propagated
+                    margin of its threshold: |det| <= 10 sc tolc, |c20| or |c02| <= tolc, vertex within
+                    2 L tolc of a box edge (this includes the exact ties of rank-deficient boxes, whose
+                    minimum-norm coefficients often have c11 = 0 or det = 0 exactly);
+  op `findpeakm F`  the same model on doubles (pivot threshold 1e-10): full-rank boxes are compared with
+                    the tolerance enlarged by the error of normal equations on doubles
+                    (64 eps k^2 (|c| + |b|/smax)); rank-deficient boxes are only counted (squaring the
+                    normal matrix on doubles is not accurate enough for a verdict);
+  op `lstsq Q`      numpy.linalg.lstsq against `lstsqMinNorm` on the design matrix and data of the run:
+                    same rank; coefficients within tolc (full rank and rank deficient: numpy returns the
+                    minimum-norm solution, which is what the model computes; the first few rank-deficient
+                    answers of numpy are recorded in the evidence).
+Injected failures of lstsq (LinAlgError, non-finite result) are outside real arithmetic: those cases are
+compared with the model whose `lsq` parameter fails (`X`), as before.
+
 Oracle (independent of the model; ground truth by construction):
   * catalogs that are shifted copies: estimate within pscale/2 of the true shift when a brute-force
     enumeration finds only true pairs in the search box; within the five-bin fit box around the
@@ -37,7 +62,10 @@ ID = 'C12'
 RULE = ('histogram scenes: catalogs (1..60 sources, sparse grid-separated or crowded, with extras, '
         'optional jitter) x true shifts on bin centres / off centre / on bin edges / beyond the radius '
         'x pscale in 0.01..10 x searchrad/pscale integer and non-integer (0.6..300); peak finder: '
-        'peaked / random / paraboloid / all-zero integer arrays up to 9x9 with masks and box sizes 0..7, '
+        'peaked / random / paraboloid (dyadic and arbitrary double parameters) / all-zero integer arrays up to 9x9 '
+        'with masks and box sizes 0..7, rank-deficient fit boxes (good pixels on two columns / two rows / a row '
+        'and a column / the diagonals / one row / a random conic through the peak), the histograms of the '
+        'scenes with the mask the estimator passes, '
         'thorough: every 3x3 array with entries in {masked, 0, 1, 2}. A case is non-trivial when at '
         'least one pair falls in the search box (histogram scenes) or at least one unmasked pixel is '
         '>= 1 (peak finder); distinct = distinct canonical input')
@@ -45,8 +73,11 @@ ASSUMPTIONS = [
     'theorems are over an arbitrary linearly ordered field with a floor (real arithmetic); rounding of '
     'the divisions by pscale and of the peak arithmetic is outside the model and is covered by running '
     'the same model on doubles in the correspondence check',
-    'numpy.linalg.lstsq is a parameter of the model (peak_in_bounds holds for any such function; '
-    'paraboloid_vertex assumes it returns the exact coefficients); its contract is tested here',
+    'numpy.linalg.lstsq is modelled by its documented result (the least-squares solution of minimum norm), '
+    'computed exactly through the normal equations (Model/Lstsq.lean); the SVD algorithm itself, LinAlgError '
+    'and overflow to non-finite values are outside the model (failures are injected by the harness and '
+    'compared with the model whose lsq parameter fails); agreement with numpy is tested to the conditioning '
+    'bound stated in the module docstring',
     'scipy KDTree.query_ball_point with radius (r+0.5)*sqrt(2) is assumed to return a superset of the '
     'pairs that pass the box test that follows it',
     'numpy.histogram2d is modelled by its documented semantics (unit bins with edges j-R-1/2, '
@@ -72,12 +103,14 @@ class LsqSpy:
 
     def __init__(self, inject=None):
         # inject: None | 'raise' (LinAlgError, as when the SVD does not converge) | 'nan' (non-finite
-        # coefficients): the two failure modes of the external call that the code handles by falling
-        # back to the centre of mass
+        # coefficients) | 'nan0' (only the constant term is non-finite - the one coefficient the vertex
+        # formula never reads, so that nothing but the finiteness test of the code can notice it): the
+        # failure modes of the external call that the code handles by falling back to the centre of mass
         self.inject = inject
 
     def __enter__(self):
         self.calls = []
+        self.info = {}      # index of the call -> (rank reported by numpy, singular values)
         self.orig = np.linalg.lstsq
         spy = self
 
@@ -85,9 +118,13 @@ class LsqSpy:
             if spy.inject == 'raise':
                 spy.calls.append((np.array(a), np.array(b), None))
                 raise np.linalg.LinAlgError('SVD did not converge (injected)')
-            if spy.inject == 'nan':
+            if spy.inject in ('nan', 'nan0'):
                 res = spy.orig(a, b, rcond=rcond)
-                bad = np.full_like(np.asarray(res[0], dtype=float), np.nan)
+                if spy.inject == 'nan':
+                    bad = np.full_like(np.asarray(res[0], dtype=float), np.nan)
+                else:
+                    bad = np.array(res[0], dtype=float)
+                    bad[0] = np.inf
                 spy.calls.append((np.array(a), np.array(b), bad))
                 return (bad,) + tuple(res[1:])
             try:
@@ -96,6 +133,7 @@ class LsqSpy:
                 spy.calls.append((np.array(a), np.array(b), None))
                 raise
             spy.calls.append((np.array(a), np.array(b), np.array(res[0], dtype=float)))
+            spy.info[len(spy.calls) - 1] = (int(res[2]), np.array(res[3], dtype=float))
             return res
 
         np.linalg.lstsq = lstsq
@@ -138,11 +176,13 @@ def exact_lsq(v, d):
 
 def check_lsq_contract(ctx, case, spy):
     """numpy.linalg.lstsq meets the contract assumed of the model's parameter"""
-    for v, d, c in spy.calls:
+    spy.exact = {}
+    for k, (v, d, c) in enumerate(spy.calls):
         if c is None or not np.all(np.isfinite(c)):
             ctx.branch('lsq:failed')
             continue
         ex = exact_lsq(v, d)
+        spy.exact[k] = ex
         if ex is None:
             ctx.branch('lsq:rank-deficient')
             continue
@@ -208,7 +248,11 @@ def oracle_find_peak(ctx, case, res, data, box, mask, vertex=None):
                                'box': [y1, y2, x1, x2]})
     if vertex is not None:
         vx, vy = vertex
-        if x1 <= vx <= x2 - 1 and y1 <= vy <= y2 - 1:
+        vm = 1e-6 if case.get('kind') == 'paraboloidf' else 0.0     # rounded samples: stay off the box edges
+        if case.get('kind') == 'paraboloidf' and not (x1 + vm <= vx <= x2 - 1 - vm and y1 + vm <= vy <= y2 - 1 - vm) \
+                and (x1 - vm <= vx <= x2 - 1 + vm and y1 - vm <= vy <= y2 - 1 + vm):
+            ctx.near_tie()
+        elif x1 <= vx <= x2 - 1 and y1 <= vy <= y2 - 1:
             if status != 'SUCCESS' or abs(x - vx) > 1e-7 or abs(y - vy) > 1e-7:
                 ctx.oracle_fail(case, {'what': 'vertex of a sampled concave paraboloid not returned',
                                        'vertex': [vx, vy], 'coord': [x, y], 'status': status})
@@ -218,9 +262,57 @@ def oracle_find_peak(ctx, case, res, data, box, mask, vertex=None):
             ctx.branch('oracle:paraboloid-vertex-outside-box')
 
 
+def gen_rankdef_case(rng):
+    """good pixels of the fit box on a conic through the peak: the design matrix is rank deficient and
+    numpy.linalg.lstsq returns the minimum-norm solution"""
+    ny, nx = rng.randint(5, 9), rng.randint(5, 9)
+    box = rng.choice([3, 5, 5, 5, 5, 7, 7, 4, 6])
+    cy, cx = rng.randint(1, ny - 2), rng.randint(1, nx - 2)
+    pat = rng.choice(['two-cols', 'two-rows', 'cross', 'diagonals', 'row-only', 'col-only', 'col+diag',
+                      'conic', 'conic', 'three-cols-hole'])
+    e = rng.choice([-2, -1, 1, 2])
+    q = [rng.randint(-2, 2) for _ in range(5)]
+
+    def on(dj, di):
+        if pat == 'two-cols':
+            return di in (0, e)
+        if pat == 'two-rows':
+            return dj in (0, e)
+        if pat == 'cross':
+            return di == 0 or dj == 0
+        if pat == 'diagonals':
+            return abs(di) == abs(dj)
+        if pat == 'row-only':
+            return dj == 0
+        if pat == 'col-only':
+            return di == 0
+        if pat == 'col+diag':
+            return di == 0 or di == e * dj
+        if pat == 'three-cols-hole':
+            # full rank in general: three columns, a few pixels missing
+            return di in (-1, 0, 1) and (dj, di) != (e, 1)
+        a, b, c, d, f = q
+        return a * di * di + b * di * dj + c * dj * dj + d * di + f * dj == 0
+    h = rng.randint(3, 9)
+    data = [[0.0] * nx for _ in range(ny)]
+    mask = [[False] * nx for _ in range(ny)]
+    for j in range(ny):
+        for i in range(nx):
+            if on(j - cy, i - cx):
+                mask[j][i] = True
+                data[j][i] = float(rng.randint(1, h - 1))
+            elif rng.random() < 0.15:
+                data[j][i] = float(rng.randint(0, h - 1))      # masked pixels carry values that must not matter
+    data[cy][cx] = float(h)
+    mask[cy][cx] = True
+    return 'rankdef:' + pat, data, box, mask, None
+
+
 def gen_peak_case(rng):
     kind = rng.choice(['peaked', 'peaked', 'peaked', 'random', 'sparsecounts', 'zeros', 'paraboloid',
-                       'paraboloid', 'plateau'])
+                       'paraboloid', 'plateau', 'rankdef', 'rankdef', 'paraboloidf'])
+    if kind == 'rankdef':
+        return gen_rankdef_case(rng)
     ny, nx = rng.randint(1, 9), rng.randint(1, 9)
     box = rng.choice([1, 2, 3, 3, 4, 5, 5, 5, 6, 7])
     vertex = None
@@ -246,6 +338,21 @@ def gen_peak_case(rng):
         ny, nx = rng.randint(3, 8), rng.randint(3, 8)
         v = float(rng.randint(1, 3))
         data = [[v if rng.random() < 0.6 else float(rng.randint(0, int(v))) for _ in range(nx)] for _ in range(ny)]
+    elif kind == 'paraboloidf':
+        # the same with arbitrary double parameters: the samples are rounded, the vertex is recovered to
+        # the conditioning of the fit
+        ny, nx = rng.randint(5, 9), rng.randint(5, 9)
+        box = rng.choice([3, 5, 5, 7])
+        x0 = rng.uniform(2.0, nx - 3.0)
+        y0 = rng.uniform(2.0, ny - 3.0)
+        a = rng.uniform(0.2, 3.0)
+        c = rng.uniform(0.2, 3.0)
+        b = rng.uniform(-0.9, 0.9) * 2.0 * math.sqrt(a * c)
+        raw = [[-a * (i - x0) ** 2 - b * (i - x0) * (j - y0) - c * (j - y0) ** 2 for i in range(nx)]
+               for j in range(ny)]
+        lo = min(min(r) for r in raw)
+        data = [[v - lo + 1.0 for v in r] for r in raw]
+        vertex = (x0, y0)
     else:
         # concave paraboloid A - a (i-X0)^2 - b (i-X0)(j-Y0) - c (j-Y0)^2 with 4ac - b^2 > 0, sampled
         # exactly (dyadic parameters), shifted up so that every sample is >= 1
@@ -263,7 +370,7 @@ def gen_peak_case(rng):
         vertex = (x0, y0)
     mask = None
     mk = rng.random()
-    if kind == 'paraboloid':
+    if kind in ('paraboloid', 'paraboloidf'):
         if mk < 0.4:
             # a few holes away from a 3x3 block around the vertex keep the design matrix of full rank
             mask = [[True] * nx for _ in range(ny)]
@@ -280,6 +387,10 @@ def gen_peak_case(rng):
         mask = [[rng.random() < p for _ in range(nx)] for _ in range(ny)]
     return kind, data, box, mask, vertex
 
+
+_CROSS = [[0.0, 0.0, 1.0, 0.0, 0.0], [0.0, 0.0, 3.0, 0.0, 0.0], [1.0, 2.0, 6.0, 3.0, 1.0],
+          [0.0, 0.0, 2.0, 0.0, 0.0], [0.0, 0.0, 1.0, 0.0, 0.0]]
+_TWOROWS = [[0.0] * 5, [0.0] * 5, [1.0, 2.0, 6.0, 3.0, 1.0], [1.0, 1.0, 2.0, 2.0, 1.0], [0.0] * 5]
 
 PEAK_CORPUS = [
     ('corpus', [[0.0, 1.0, 0.0], [1.0, 2.0, 1.0], [0.0, 1.0, 0.0]], 3, None, (1.0, 1.0)),
@@ -300,6 +411,19 @@ PEAK_CORPUS = [
      [[False, False, False, False], [False, True, True, False], [False] * 4], None),     # < 6 points: COM
     ('corpus', [[0.5, 0.25], [0.75, 0.5]], 3, None, None),                               # max < 1: NODATA
     ('corpus', [[1.0, 2.0, 1.0], [2.0, 1.0, 2.0], [1.0, 2.0, 1.0]], 3, None, None),
+    # rank-deficient fit boxes (numpy returns the minimum-norm solution and _find_peak goes on with it)
+    ('corpus', _CROSS, 5, [[v > 0 for v in r] for r in _CROSS], None),            # a row and a column: SUCCESS
+    ('corpus', _TWOROWS, 5, [[v > 0 for v in r] for r in _TWOROWS], None),        # two rows: centre of mass
+    ('corpus', [list(r) for r in zip(*_TWOROWS)], 5,
+     [[v > 0 for v in r] for r in zip(*_TWOROWS)], None),                          # two columns
+    ('corpus', [[0.0] * 7, [0.0] * 7, [0.0] * 7, [1.0, 2.0, 3.0, 7.0, 4.0, 2.0, 1.0], [0.0] * 7, [0.0] * 7,
+                [0.0] * 7], 7, [[False] * 7] * 3 + [[True] * 7] + [[False] * 7] * 3, None),   # one row, rank 3
+    ('corpus', [[2.0, 0.0, 0.0, 0.0, 1.0], [0.0, 3.0, 0.0, 2.0, 0.0], [0.0, 0.0, 6.0, 0.0, 0.0],
+                [0.0, 2.0, 0.0, 3.0, 0.0], [1.0, 0.0, 0.0, 0.0, 2.0]], 5,
+     [[True, False, False, False, True], [False, True, False, True, False], [False, False, True, False, False],
+      [False, True, False, True, False], [True, False, False, False, True]], None),   # the two diagonals
+    ('corpus', [[1.0, 2.0, 1.0], [2.0, 5.0, 2.0], [1.0, 2.0, 1.0], [0.0, 1.0, 0.0]], 5, None, None),  # 3 columns: full rank
+    ('corpus', [[1.0, 2.0, 1.0, 0.0], [2.0, 5.0, 3.0, 1.0], [1.0, 2.0, 1.0, 0.0]], 7, None, None),   # 3 rows, box clipped
 ]
 
 
@@ -311,7 +435,7 @@ def run_peak_case(ctx, kind, data, box, mask, vertex, lines, pending, count=True
     inject = None
     if kind != 'corpus' and vertex is None and ctx.rng.random() < 0.04:
         # the external least-squares call fails: the code must fall back to the centre of mass
-        inject = ctx.rng.choice(['raise', 'nan'])
+        inject = ctx.rng.choice(['raise', 'nan', 'nan0'])
         case['lstsq'] = inject
     res, spy = impl_find_peak(data, box, mask, inject)
     nontrivial = any(data[j][i] >= 1 and (mask is None or mask[j][i]) for j in range(ny) for i in range(nx))
@@ -329,9 +453,224 @@ def run_peak_case(ctx, kind, data, box, mask, vertex, lines, pending, count=True
     if spy.calls and spy.calls[-1][2] is not None and vertex is None \
             and all(float(x).is_integer() for r in data for x in r):
         v, d, c = spy.calls[-1]
-        if exact_lsq(v, d) is not None:
+        if spy.exact.get(len(spy.calls) - 1) is not None:
             lines.append(peak_line('Q', data, box, mask, 'N'))
             pending.append(('peakQ', dict(case, _coef=[float(x) for x in c]), res))
+    # the closed model (concrete least squares, no coefficient handed over) on exact rationals and on
+    # doubles, and numpy.linalg.lstsq against the model's solver on the design matrix of this call
+    if inject is None and (spy.calls or ctx.rng.random() < 0.05):
+        shared = {}
+        if spy.calls and spy.calls[-1][2] is not None:
+            v, d, c = spy.calls[-1]
+            shared['v'], shared['d'] = v, d
+            info = spy.info.get(len(spy.calls) - 1)
+            if (info is not None and info[0] < 6) or ctx.rng.random() < 0.4:
+                lines.append(lstsq_line('Q', v, d))
+                pending.append(('lstsq', case, (v, d, c, info)))
+        lines.append(peakm_line('Q', data, box, mask))
+        pending.append(('peakM', case, (res, shared)))
+        lines.append(peakm_line('F', data, box, mask))
+        pending.append(('peakMF', case, (res, shared)))
+
+
+# ---------------------------------------------------------------------------
+# the concrete least-squares model (lean/Model/Lstsq.lean) against numpy's lstsq
+# ---------------------------------------------------------------------------
+EPS = 2.0 ** -52
+
+
+def lstsq_line(mode, v, d):
+    m = len(v)
+    if mode == 'F':
+        vs = ' '.join(f2x(x) for r in v for x in r)
+        ds = ' '.join(f2x(x) for x in d)
+    else:
+        vs = ' '.join(q2s(to_fraction(x)) for r in v for x in r)
+        ds = ' '.join(q2s(to_fraction(x)) for x in d)
+    return 'lstsq %s %d %s %s' % (mode, m, vs, ds)
+
+
+def peakm_line(mode, data, box, mask):
+    ny, nx = len(data), len(data[0])
+    ms = '-' if mask is None else ''.join('1' if b else '0' for r in mask for b in r)
+    if mode == 'F':
+        ds = ' '.join(f2x(x) for r in data for x in r)
+    else:
+        ds = ' '.join(q2s(to_fraction(x)) for r in data for x in r)
+    return 'findpeakm %s %d %d %d %s %s' % (mode, ny, nx, box, ms, ds)
+
+
+def conditioning(v, d, cex):
+    """Wedin's bound for the coefficients returned by a backward-stable least-squares solver on the design
+    matrix `v` and data `d`, `cex` the exact (minimum-norm) solution.
+    -> (tolc, tolc_normal_equations_on_doubles, kappa, numerical rank, smax)"""
+    a = np.asarray(v, dtype=float)
+    sv = np.linalg.svd(a, compute_uv=False)
+    smax = float(sv[0]) if sv.size else 0.0
+    if smax == 0.0:
+        return 0.0, 0.0, 1.0, 0, 0.0
+    cut = EPS * max(a.shape) * smax
+    nz = sv[sv > cut]
+    smin = float(nz[-1])
+    kappa = smax / smin
+    c = np.array([float(x) for x in cex])
+    b = np.asarray(d, dtype=float)
+    cn = float(np.linalg.norm(c))
+    bn = float(np.linalg.norm(b))
+    rn = float(np.linalg.norm(a @ c - b))
+    tolc = 16.0 * EPS * (kappa * cn + kappa * bn / smax + kappa * kappa * rn / smax) + 1e-300
+    tolf = tolc + 64.0 * EPS * kappa * kappa * (cn + bn / smax)
+    return tolc, tolf, kappa, int(nz.size), smax
+
+
+def fit_decisions(cex, bx, tolc):
+    """the decisions of the fit stage of _find_peak for the exact coefficients `cex` and how far each is
+    from its threshold: -> (names of the deciding quantities within the margin, tolx, toly, exact outcome)"""
+    c10, c01, c11, c20, c02 = [float(x) for x in cex[1:]]
+    y1, y2, x1, x2 = bx
+    near = []
+    det = 4 * c02 * c20 - c11 ** 2
+    sc = max(abs(c02), abs(c20), abs(c11))
+    if abs(det) <= 10 * sc * tolc + 10 * tolc * tolc:
+        near.append('det')
+    if abs(c20) <= tolc:
+        near.append('c20')
+    if abs(c02) <= tolc:
+        near.append('c02')
+    tolx = toly = float('inf')
+    if det != 0:
+        xm = (c01 * c11 - 2.0 * c02 * c10) / det
+        ym = (c10 * c11 - 2.0 * c01 * c20) / det
+        lx = (abs(2 * c02) + abs(c11) + abs(c01 + 2 * c11 * xm) + abs(2 * c10 + 4 * c20 * xm)
+              + abs(4 * c02 * xm)) / abs(det)
+        ly = (abs(2 * c20) + abs(c11) + abs(c10 + 2 * c11 * ym) + abs(2 * c01 + 4 * c02 * ym)
+              + abs(4 * c20 * ym)) / abs(det)
+        tolx = 2 * lx * tolc + 1e-12 * max(1.0, abs(xm) + x1)
+        toly = 2 * ly * tolc + 1e-12 * max(1.0, abs(ym) + y1)
+        xa, ya = xm + x1 - 1, ym + y1 - 1
+        if min(abs(xa - x1), abs(xa - (x2 - 1))) <= tolx:
+            near.append('x-edge')
+        if min(abs(ya - y1), abs(ya - (y2 - 1))) <= toly:
+            near.append('y-edge')
+    return near, tolx, toly
+
+
+def parse_peakm(out, mode):
+    """-> None | ('err', name) | ('ok', (x, y), status, box, None | (rank, [exact or float coefs]))"""
+    toks = out.split()
+    if not toks or toks[0] not in ('ok', 'err'):
+        return None
+    if toks[0] == 'err':
+        return ('err', toks[1])
+    num = (lambda t: x2f(t)) if mode == 'F' else (lambda t: s2q(t))
+    x, y = num(toks[1]), num(toks[2])
+    bx = tuple(int(t) for t in toks[4:8])
+    fit = None
+    if toks[8] != 'nofit':
+        fit = (int(toks[8]), [num(t) for t in toks[9:15]])
+    return ('ok', (x, y), toks[3], bx, fit)
+
+
+def compare_peak_concrete(ctx, out, kind, case, res, shared):
+    """real _find_peak against the closed model `findPeakConcrete` (no coefficient handed over)"""
+    mode = 'Q' if kind == 'peakM' else 'F'
+    tag = '' if mode == 'Q' else '(F)'
+    m = parse_peakm(out, mode)
+    if m is None:
+        ctx.disagree(case, {'op': 'findpeakm', 'mode': mode, 'model': out[:120]})
+        return
+    if m[0] == 'err' or res[0] != 'ok':
+        if not (m[0] == 'err' and res[0] == 'err'):
+            ctx.disagree(case, {'op': 'findpeakm', 'mode': mode, 'model': out[:120], 'impl': list(res)})
+        return
+    (mx, my), mstatus, mbox, fit = m[1], m[2], m[3], m[4]
+    (x, y), status, bx = res[1], res[2], res[3]
+    ny, nx = len(case['data']), len(case['data'][0])
+    detail = {'op': 'findpeakm', 'mode': mode, 'model': [float(mx), float(my), mstatus, list(mbox)],
+              'impl': [x, y, status, list(bx)]}
+    if mbox != tuple(bx):
+        ctx.disagree(case, detail)
+        return
+    if mode == 'Q':
+        shared['fit'] = fit
+    base = 1e-9 * max(1, nx, ny)
+    v, d = shared.get('v'), shared.get('d')
+    if fit is None or v is None:
+        # no fit stage on either side (or only on one: then the results differ and that is reported)
+        ctx.branch('concrete%s:%s:nofit' % (tag, mstatus))
+        if mstatus != status or abs(float(mx) - x) > base or abs(float(my) - y) > base:
+            ctx.disagree(case, detail)
+        return
+    rank = fit[0]
+    cex = (shared.get('fit') or fit)[1]          # the exact coefficients (Q run) when available
+    if 'cond' not in shared:
+        shared['cond'] = conditioning(v, d, cex)
+    tolc, tolf, kappa, nrank, _ = shared['cond']
+    if mode == 'F':
+        if shared.get('fit') is not None and shared['fit'][0] == 6 and fit[0] != 6:
+            # the model on doubles took a regular but ill-conditioned normal matrix for a singular one
+            # (relative pivot below 1e-10, i.e. cond(A) of about 1e5 or more): a threshold decision of the
+            # floating-point run, not of the code under test; the exact run is the one that is compared
+            ctx.near_tie()
+            ctx.branch('concrete(F):near-tie:rank-threshold')
+            return
+        if (shared.get('fit') or fit)[0] < 6:
+            # rank-deficient box on doubles: the minimum-norm step squares the normal matrix; counted only
+            ok = (mstatus == status and abs(mx - x) <= 1e-6 and abs(my - y) <= 1e-6)
+            ctx.branch('concrete(F):rank-deficient:' + ('agrees' if ok else 'differs(not-a-verdict)'))
+            return
+        tolc = tolf
+    near, tolx, toly = fit_decisions(cex, bx, tolc)
+    ctx.branch('concrete%s:%s:rank%d' % (tag, mstatus, rank))
+    if mstatus == status:
+        if status == 'SUCCESS':
+            tx, ty = base + tolx, base + toly
+        else:
+            tx = ty = base
+        if abs(float(mx) - x) <= tx and abs(float(my) - y) <= ty:
+            return
+        detail['tolerance'] = [tx, ty]
+        detail['kappa'] = kappa
+    if near:
+        ctx.near_tie()
+        ctx.branch('concrete%s:near-tie:%s' % (tag, '+'.join(near)))
+        return
+    detail['coefficients'] = [float(t) for t in cex]
+    detail['tolc'] = tolc
+    ctx.disagree(case, detail)
+
+
+def compare_lstsq_direct(ctx, out, case, v, d, c, info):
+    """numpy.linalg.lstsq against the model's lstsqMinNorm on the same design matrix and data"""
+    toks = out.split()
+    if toks[0] != 'ok':
+        ctx.disagree(case, {'op': 'lstsq', 'model': out[:120]})
+        return
+    rank = int(toks[1])
+    cex = [s2q(t) for t in toks[2:8]]
+    tolc, _, kappa, nrank, smax = conditioning(v, d, cex)
+    nprank = info[0] if info else None
+    ctx.branch('lstsq-direct:rank%d' % rank)
+    err = max(abs(float(a) - float(b)) for a, b in zip(c, cex))
+    ratio = err / tolc if tolc > 0 else 0.0
+    ctx.extra['lstsq_err_over_bound_max'] = max(ctx.extra.get('lstsq_err_over_bound_max', 0.0), ratio)
+    ctx.extra['lstsq_kappa_max'] = max(ctx.extra.get('lstsq_kappa_max', 0.0), kappa)
+    if rank < 6:
+        rec = ctx.extra.setdefault('numpy_on_rank_deficient', [])
+        if len(rec) < 5:
+            rec.append({'rank_model': rank, 'rank_numpy': nprank,
+                        'singular_values': None if not info else [float(t) for t in info[1]],
+                        'numpy': [float(t) for t in c], 'model_min_norm': [float(t) for t in cex],
+                        'max_abs_diff': err})
+    if nprank is not None and nprank != rank:
+        ctx.disagree(case, {'op': 'lstsq', 'what': 'rank', 'model': rank, 'numpy': nprank,
+                            'singular_values': [float(t) for t in info[1]]})
+        return
+    if err > tolc:
+        ctx.disagree(case, {'op': 'lstsq', 'what': 'coefficients', 'rank': rank,
+                            'numpy': [float(t) for t in c], 'model': [float(t) for t in cex],
+                            'err': err, 'tolc': tolc, 'kappa': kappa})
+
 
 
 def fit_near_threshold(c, bx):
@@ -341,7 +680,9 @@ def fit_near_threshold(c, bx):
         return True
     _, c10, c01, c11, c20, c02 = [float(v) for v in c]
     y1, y2, x1, x2 = bx
-    sc = max(abs(float(v)) for v in c[1:]) or 1.0
+    # (numpy's coefficients carry an absolute error of about cond * eps * |c|: a quadratic part below 1e-7 of
+    #  the constant term - exactly zero for small-integer data such as a 3x3 box 2 1 2 / 1 3 1 / 2 1 2 - is noise)
+    sc = max(max(abs(float(v)) for v in c[1:]), 1e-7 * abs(float(c[0]))) or 1.0
     det = 4 * c02 * c20 - c11 ** 2
     if abs(det) <= 1e-9 * sc * sc or abs(c20) <= 1e-9 * sc or abs(c02) <= 1e-9 * sc:
         return True
@@ -649,6 +990,10 @@ def run_scene(ctx, case, lines, pending):
     h = impl_hist(simg, sref, r)
     lines.append('hist F %s %d %d %s %s' % (f2x(r), len(simg), len(sref), coords(simg), coords(sref)))
     pending.append(('hist', case, h))
+    # the histogram with the mask the estimator passes to the peak finder (masked, often sparse boxes)
+    if h.shape[0] <= 41 and int(np.count_nonzero(h)) >= 2 and ctx.rng.random() < 0.5:
+        run_peak_case(ctx, 'scenehist', np.asarray(h, dtype=float).tolist(), 5, (np.asarray(h) > 0).tolist(),
+                      None, lines, pending)
 
 
 def compare_scene(ctx, out, kind, case, val):
@@ -676,6 +1021,17 @@ def compare_scene(ctx, out, kind, case, val):
 
 
 # ---------------------------------------------------------------------------
+def dispatch(ctx, out, kind, case, val):
+    if kind in ('peak', 'peakQ'):
+        compare_peak(ctx, out, kind, case, val)
+    elif kind in ('peakM', 'peakMF'):
+        compare_peak_concrete(ctx, out, kind, case, val[0], val[1])
+    elif kind == 'lstsq':
+        compare_lstsq_direct(ctx, out, case, *val)
+    else:
+        compare_scene(ctx, out, kind, case, val)
+
+
 def run(ctx):
     lines, pending = [], []
     rng = ctx.rng
@@ -697,10 +1053,7 @@ def run(ctx):
         return
     outs = ctx.driver(lines)
     for out, (kind, case, val) in zip(outs, pending):
-        if kind in ('peak', 'peakQ'):
-            compare_peak(ctx, out, kind, case, val)
-        else:
-            compare_scene(ctx, out, kind, case, val)
+        dispatch(ctx, out, kind, case, val)
 
 
 def replay(ctx, payload):
@@ -718,10 +1071,7 @@ def replay(ctx, payload):
         run_scene(ctx, case, lines, pending)
     outs = ctx.driver(lines)
     for out, (kind, c, val) in zip(outs, pending):
-        if kind in ('peak', 'peakQ'):
-            compare_peak(ctx, out, kind, c, val)
-        else:
-            compare_scene(ctx, out, kind, c, val)
+        dispatch(ctx, out, kind, c, val)
     bad = ctx.oracle_failures + ctx.disagreements
     for b in bad:
         print('STILL FAILS:', b['detail'])
